@@ -75,6 +75,9 @@ def gen(rng, tier, run):
                         args = args[1:]
                 op = ['use', rng.choice(funcs), args, kwargs, 'hard' if rng.random() < 0.75 else 'soft',
                       rng.random() < 0.15]
+                if rng.random() < 0.2:     # wrappers derived from this one before it is used again: [kwarg or None, task, key]
+                    op.append([[rng.choice([None, None, 'kx']), ref(rng, oks), rng.choice(KEYS)]
+                               for _ in range(rng.randrange(1, 3))])
             ops.append(op)
             oks.append(len(ops) - 1)
         elif r < 0.55 or nfac == 0:
@@ -274,6 +277,16 @@ def run_impl(case, run):
                                   serialize=op[5])
                         res = use.get_task()
                         out = {'ok': discover(res)}
+                        if len(op) > 6 and op[6]:
+                            # the wrapper is decorated further (stacked @using), then used again itself: it must still
+                            # stand for its own request
+                            for extra in op[6]:
+                                tsk = resolve(extra[1])
+                                if tsk is not None:
+                                    Use.from_func(func=use, task=tsk, key=extra[2], kwarg=extra[0])
+                            again = use.get_task()
+                            if again is not res:
+                                out['again'] = discover(again)
                 elif name == 'factory':
                     factories.append(RunTaskFactory.from_executable(
                         '/bin/sh', name=op[1], default_args=['-c', 'echo "$VJ" "$@"', 'sh', '{food}', '{side}'],
@@ -497,6 +510,12 @@ def oracle(case, impl, run):
     facs = {}
     for i, (op, out) in enumerate(zip(case['ops'], outs)):
         run.count('op:' + op[0])
+        if op[0] == 'use' and len(op) > 6 and op[6]:
+            run.count('use:decorated-then-reused')
+        if isinstance(out, dict) and 'again' in out:
+            fails.append(('task_runs_its_own_request',
+                          f'op {i}: after other wrappers were derived from it, the same wrapper gives task {out["again"]} '
+                          f'instead of task {out["ok"]}'))
         if isinstance(out, str) and out not in ('ValueError', 'skip', 'ok'):
             fails.append(('no_unexpected_exception', f'op#{i} {op[0]}: {out}'))
             continue
